@@ -825,4 +825,5 @@ func main() {
 		r := hx.NewRNG(o.Seed, id)
 		runServer(w, id, r, r.Range(16, 64))
 	}
+	driveServerSide(w, o)
 }
